@@ -260,6 +260,13 @@ func genRandom(t *rapid.T) Case {
 		}
 		c.Procs = append(c.Procs, pr)
 	}
+	if np >= 2 && rapid.IntRange(0, 5).Draw(t, "twin") == 0 {
+		// two processors instantiated from one domain, each with its own shared-object attachments
+		twin := c.Procs[0]
+		twin.SOs = attach[1]
+		c.Procs[1] = twin
+		c.Twin = true
+	}
 	// programs (need the per-processor shared object counts)
 	for p := range c.Procs {
 		pr := &c.Procs[p]
